@@ -99,14 +99,25 @@ MC_BODY = r'''
 CONSTANTS MaxD, MaxF, MaxW
 DN == <<"d1", "d2", "d3">>
 FN == <<"f1", "f2", "f3">>
-Op(c, p, d, n) == [call |-> c, path |-> p, dir |-> d, len |-> n]
-FileOps(i, nd, nw) == <<Op("open", FN[i], DN[((i - 1) % nd) + 1], 0)>>
-                      \o [w \in 1 .. nw |-> Op("write", FN[i], "", IF w = 1 THEN 3 ELSE 1)]
-                      \o <<Op("close", FN[i], "", 0)>>
-RECURSIVE AllFiles(_, _, _, _)
-AllFiles(i, nf, nd, nw) == IF i > nf THEN <<>> ELSE FileOps(i, nd, nw) \o AllFiles(i + 1, nf, nd, nw)
-MkPlan(nd, nf, nw) == [d \in 1 .. nd |-> Op("mkdir", DN[d], IF d = 1 THEN "" ELSE DN[1], 0)] \o AllFiles(1, nf, nd, nw)
-MCPlans == {MkPlan(nd, nf, nw) : nd \in 1 .. MaxD, nf \in 1 .. MaxF, nw \in 1 .. MaxW}
+TN == <<"f1.tmp", "f2.tmp", "f3.tmp">>
+Op(c, p, d, n) == [call |-> c, path |-> p, dir |-> d, len |-> n, src |-> ""]
+\* style "direct": the file is written in place; "replace": written under a temporary name, closed, renamed
+\* into place; "scratch": a scratch file is written and removed again before the file proper is written
+FileOps(i, nd, nw, style) ==
+  LET name == IF style \in {"replace", "replace+cleanup"} THEN TN[i] ELSE FN[i]
+      body == <<Op("open", name, DN[((i - 1) % nd) + 1], 0)>>
+              \o [w \in 1 .. nw |-> Op("write", name, "", IF w = 1 THEN 3 ELSE 1)]
+              \o <<Op("close", name, "", 0)>>
+  IN CASE style = "replace" -> body \o <<[Op("rename", FN[i], "", 0) EXCEPT !.src = TN[i]]>>
+       [] style = "replace+cleanup" -> body \o <<[Op("rename", FN[i], "", 0) EXCEPT !.src = TN[i]], Op("unlink", TN[i], "", 0)>>
+       [] style = "scratch" -> <<Op("open", TN[i], DN[((i - 1) % nd) + 1], 0), Op("write", TN[i], "", 2), Op("close", TN[i], "", 0),
+                                 Op("unlink", TN[i], "", 0)>> \o body
+       [] OTHER -> body
+RECURSIVE AllFiles(_, _, _, _, _)
+AllFiles(i, nf, nd, nw, style) == IF i > nf THEN <<>> ELSE FileOps(i, nd, nw, style) \o AllFiles(i + 1, nf, nd, nw, style)
+MkPlan(nd, nf, nw, style) == [d \in 1 .. nd |-> Op("mkdir", DN[d], IF d = 1 THEN "" ELSE DN[1], 0)] \o AllFiles(1, nf, nd, nw, style)
+MCPlans == {MkPlan(nd, nf, nw, "direct") : nd \in 1 .. MaxD, nf \in 1 .. MaxF, nw \in 1 .. MaxW}
+           \cup {MkPlan(nd, nf, nw, st) : nd \in 1 .. 2, nf \in 1 .. 2, nw \in 1 .. 2, st \in {"replace", "replace+cleanup", "scratch"}}
 \* every position (also beyond the end: never reached) and every kind; every input open
 MCFaultsOf(p) == {NoFault}
    \cup {[cls |-> "out", k |-> k, kind |-> kd] : k \in 1 .. Len(p) + 2, kd \in Kinds}
@@ -136,7 +147,7 @@ def model_check(wd, check_stream, infiles=2, workers=6):
 def quick_positions(ref, rnd, budget=60):
     """mkdir/open/write positions: first and last mkdir; open, first and last
     write of the first and of the last file; then a seeded sample."""
-    cand = ref.positions(("mkdir", "open", "write"))
+    cand = ref.positions(("mkdir", "open", "write", "rename", "unlink"))
     if len(cand) <= budget:
         return cand
     ops = ref.ops
@@ -149,6 +160,7 @@ def quick_positions(ref, rnd, budget=60):
             files.append(op["path"])
     for f in (files[0], files[-1]):
         idx = [i + 1 for i, op in enumerate(ops) if op["path"] == f and op["call"] in ("open", "write")]
+        must.update(i + 1 for i, op in enumerate(ops) if op["call"] == "rename" and op["src"] == f)
         opens = [k for k in idx if ops[k - 1]["call"] == "open"]
         writes = [k for k in idx if ops[k - 1]["call"] == "write"]
         must.update(opens[:1] + writes[:1] + writes[-1:])
@@ -161,7 +173,7 @@ def fault_jobs(ref, stale_ops, tier, rnd):
     """(tag, fault, init) for one schema."""
     jobs = []
     thorough = tier == "thorough"
-    pos = ref.positions(("mkdir", "open", "write", "close")) if thorough else quick_positions(ref, rnd)
+    pos = ref.positions(("mkdir", "open", "write", "close", "rename", "unlink")) if thorough else quick_positions(ref, rnd)
     for k in pos:
         call = ref.ops[k - 1]["call"]
         for kind in sr.KINDS:
